@@ -55,6 +55,7 @@ inductive Expr
   | addrTls (g : String)
   | fieldAddr (e : Expr) (f : String)  -- `&(e)->f`
   | pload (e : Expr)                   -- plain load of `*e`
+  | index (e i : Expr)                 -- `&(e)[i]`: element i of the array at e (named as the field "[i]")
   | un (op : UnOp) (e : Expr)
   | bin (op : BinOp) (a b : Expr)
   deriving Repr, Inhabited
@@ -148,6 +149,11 @@ def eval (env : Env) : Expr → Except String Val
   | .fieldAddr e f => do
     let l ← asLoc (← eval env e)
     .ok (.ptr (.field l f))
+  | .index e i => do
+    let l ← asLoc (← eval env e)
+    match ← eval env i with
+    | .int n => .ok (.ptr (.field l s!"[{n}]"))
+    | _ => .error "array index is a pointer"
   | .pload e => do
     let l ← asLoc (← eval env e)
     match env.priv l with
